@@ -52,7 +52,15 @@ Proof.
   assert (Htn : (t < nscopes st)%nat) by (eapply stack_ok_in; [apply I|exact Ht]).
   destruct (I_marks _ _ _ _ _ I t Ht) as [Hfor Hnarg].
   unfold a_declare_at, declare_at. rewrite (sget_valid st t Htn). cbn [rbind].
-  rewrite a_find_decl_frame. rewrite (find_declared_nofor st (sc_of st t) x true Hfor).
+  assert (Efor : existsb (fun e => fst e =? x) (firstn (fnfor (frame_of st home t)) (fdecl (frame_of st home t)))
+                 = existsb (fun v => vname (vget st v) =? x) (firstn (Z.to_nat (nfordecls (sc_of st t))) (sdeclared (sc_of st t)))).
+  { unfold frame_of. cbn [fnfor fdecl]. rewrite firstn_map.
+    generalize (firstn (Z.to_nat (nfordecls (sc_of st t))) (sdeclared (sc_of st t))). intros l0.
+    induction l0 as [|v0 l0 IHl]; [reflexivity|]. cbn [map existsb nk fst]. rewrite IHl. reflexivity. }
+  rewrite Efor. clear Efor.
+  destruct (existsb (fun v => vname (vget st v) =? x) (firstn (Z.to_nat (nfordecls (sc_of st t))) (sdeclared (sc_of st t)))) eqn:Efor;
+    [exact Logic.I|].
+  rewrite a_find_decl_frame. rewrite (find_declared_skip st (sc_of st t) x Efor).
   destruct (find (fun v => vname (vget st v) =? x) (rev (sdeclared (sc_of st t)))) as [v|] eqn:Efind.
   - (* already declared in the target scope *)
     apply find_some_name in Efind. destruct Efind as [Hin Hname]. apply in_rev in Hin.
@@ -238,8 +246,7 @@ Proof.
   destruct ((decl =? VariableDecl) || (decl =? FunctionDecl)) eqn:Ehoist.
   - assert (Hfuel : (length stk <= fuel_of st)%nat).
     { pose proof (stack_ok_length _ _ (I_stack _ _ _ _ _ I)). unfold fuel_of, nscopes in *. lia. }
-    pose proof (walk_sim st home decl x stk (fuel_of st) (I_stack _ _ _ _ _ I)
-                  (fun s Hs => proj1 (I_marks _ _ _ _ _ I s Hs)) Hfuel) as Hw.
+    pose proof (walk_sim st home decl x stk (fuel_of st) (I_stack _ _ _ _ _ I) Hfuel) as Hw.
     replace (hd O stk) with c in Hw by (rewrite Hstk; reflexivity).
     destruct (a_walk (map (frame_of st home) stk) decl x) as [[[[pre tgt] post]|]|].
     + destruct Hw as (spre & t & spost & E1 & E2 & E3 & E4 & E5). rewrite E5. cbn [rbind]. subst pre tgt post.
